@@ -100,6 +100,7 @@ class Harness:
     self.notes = []
     self.trigger = None      # leg R: predicate(kind, fields) naming the spec crash point to realise
     self.cur_round = 0
+    self.in_eval = False
 
   def maybe_crash(self, kind, **fields):
     if self.trigger is not None and self.trigger(kind, fields):
@@ -113,12 +114,16 @@ class Harness:
     class LoggingSampler(base):
 
       def sample(self):
+        if h.in_eval:      # (the periodic evaluation's own use of the shared sampler: neither an event nor a crash point)
+          return super().sample()
         h.maybe_crash('Sample', r=int(self._round_num))
         out = super().sample()
         h.log.append({'e': 'Sample', 'c': h.cohort_of.get(tuple(c[0] for c in out), -1)})
         return out
 
       def set_round_num(self, round_num):
+        if h.in_eval:
+          return super().set_round_num(round_num)
         h.maybe_crash('SetRound', r=int(round_num))
         super().set_round_num(round_num)
         h.log.append({'e': 'SetRound', 'r': int(round_num)})
@@ -151,9 +156,18 @@ class Harness:
 
     return self.fedjax.FederatedAlgorithm(init, apply)
 
-  def make_evals(self):
+  def make_evals(self, sampler=None):
     h = self
     fe = self.fe
+    # with periodic evaluation on: the packaged ModelSampleClientsEvaluationFn runs inside the periodic evaluation on THE
+    # SAME sampler object the training loop uses (it seats the sampler at the evaluated round and draws once, which leaves
+    # the sampler where the loop expects it)
+    shared = None
+    if sampler is not None and self.cfg[3] > 0:
+      import types  # pylint: disable=g-import-not-at-top
+      model = self.fedjax.Model(init=lambda k_: None, apply_for_train=None, apply_for_eval=lambda p_, b_: b_['x'], train_loss=None, eval_metrics={})
+      shared_fn = fe.ModelSampleClientsEvaluationFn(sampler, model, self.fedjax.PaddedBatchHParams(batch_size=4))
+      shared = lambda state, round_num: shared_fn(types.SimpleNamespace(params=state['params']), round_num)
 
     class Final(fe.EvaluationFn):
 
@@ -168,6 +182,12 @@ class Harness:
       def __call__(self, state, round_num):
         h.maybe_crash('PeriodicEval', r=int(round_num))
         h.log.append({'e': 'PeriodicEval', 'st': [int(x) for x in state['hist']], 'round': int(round_num)})
+        if shared is not None:
+          h.in_eval = True
+          try:
+            shared(state, round_num)
+          finally:
+            h.in_eval = False
         return {}
 
     return {'per': Periodic()}, {'final': Final()}
@@ -240,14 +260,15 @@ class Harness:
     importlib.reload(ckpt_mod)
     cfg = self.fe.FederatedExperimentConfig(root_dir=self.root, num_rounds=nr, checkpoint_frequency=f,
                                             num_checkpoints_to_keep=k, eval_frequency=e)
-    per, fin = self.make_evals()
+    smp = self.make_sampler()
+    per, fin = self.make_evals(smp)
     alg = self.make_algorithm()
     ip = faults.Interposer(self.root, self.snapshot, self.log, crash_at=crash_at, partial=partial,
                            name_of=self.name_of, crash_pred=trigger)
     outcome = 'return'
     with ip:
       try:
-        out = self.fe.run_federated_experiment(alg, alg.init(), self.make_sampler(), cfg,
+        out = self.fe.run_federated_experiment(alg, alg.init(), smp, cfg,
                                                periodic_eval_fn_map=per, final_eval_fn_map=fin)
         st = [int(x) for x in out['hist']]
         # the rest of the returned state must be what the same rounds give without any interruption (dtype, weak typing, value)
